@@ -352,11 +352,17 @@ def run_check(prop, tier, seed=None, workers=None, runs=None, wall=None):
         groups = {}
         for idx, run, v, dg in sorted(viol, key=lambda t: t[0]):
             groups.setdefault(_group_key(prop, v, entries), (idx, run, v, dg))
+        counts = Counter(_group_key(prop, v, entries) for _, _, v, _ in viol)
+        if groups:
+            print('violation classes (%d):' % len(groups))
+            for gk in groups:
+                print('   %5d x oracle=%s subject=%s%s' % (
+                    counts[gk], gk[0], gk[1], ' [known %s]' % gk[2] if gk[2] else ''), flush=True)
         known_lines = []
         violation_lines = []
         seen_known = set()
         replay_problems = []
-        max_report = 12
+        max_report = int(os.environ.get('COPSIM_MAX_REPORT', '12'))
         for gkey, (idx, run, v, dg) in groups.items():
             if gkey[2] is not None:
                 if gkey[2] not in seen_known:
@@ -365,8 +371,10 @@ def run_check(prop, tier, seed=None, workers=None, runs=None, wall=None):
                     known_lines.append('KNOWN-FINDING: property=%s %s' % (prop, e['text']))
                 continue
             if len(violation_lines) >= max_report:
-                continue
-            small, used = shrink(pool, mod, run, gkey, entries)
+                # beyond the report limit: no minimisation, but still a replayable VIOLATION
+                small, used = run, 0
+            else:
+                small, used = shrink(pool, mod, run, gkey, entries)
             res = pool.submit(_exec_candidate, prop, small).result(timeout=RUN_TIMEOUT + 30)
             vv = [x for x in res['violations'] if _group_key(prop, x, entries) == gkey]
             if not vv:      # should not happen: keep the unshrunk run
